@@ -478,10 +478,14 @@ def program_equivalence(prog1, prog2, compare_params=True, atol=1e-6, rtol=0):
         name_mapping = {i: n.op.__class__.__name__ for i, n in enumerate(G.nodes())}
         nx.set_node_attributes(circuit[-1], name_mapping, name="name")
 
+        # add node attributes to store the inverse (dagger) flag of gates
+        dagger_mapping = {i: getattr(n.op, "dagger", False) for i, n in enumerate(G.nodes())}
+        nx.set_node_attributes(circuit[-1], dagger_mapping, name="dagger")
+
     def node_match(n1, n2):
         """Returns True if both nodes have the same name and
         same parameters, within a certain tolerance"""
-        name_match = n1["name"] == n2["name"]
+        name_match = n1["name"] == n2["name"] and n1["dagger"] == n2["dagger"]
         wire_match = n1["w"] == n2["w"]
 
         if compare_params:
